@@ -3,6 +3,9 @@ pub mod amlprops;
 pub mod c02;
 pub mod c07;
 pub mod c08;
+pub mod c09;
+pub mod c13;
+pub mod c16;
 pub mod c17;
 pub mod common;
 
@@ -14,6 +17,9 @@ pub fn run(ctx: &Ctx) -> bool {
         "C02" => c02::run(ctx),
         "C07" => c07::run(ctx),
         "C08" => c08::run(ctx),
+        "C09" => c09::run(ctx),
+        "C13" => c13::run(ctx),
+        "C16" => c16::run(ctx),
         "C17" => c17::run(ctx),
         _ => return false,
     }
@@ -29,6 +35,9 @@ pub fn replay(prop: &str, check: &str, payload: &serde_json::Value) -> Option<Ve
         "C02" => c02::replay(case),
         "C07" => c07::replay(case),
         "C08" => c08::replay(case),
+        "C09" => c09::replay(case),
+        "C13" => c13::replay(case),
+        "C16" => c16::replay(case),
         "C17" => c17::replay(case),
         _ => return None,
     })
